@@ -372,10 +372,30 @@ func runC19(c C19Case) (out core.Outcome) {
 				b := held[k]
 				held = append(held[:k], held[k+1:]...)
 				verify(b)
+				if b.bb != nil && b.wrote > 0 && (w+i)%3 == 0 {
+					// the holder has consumed part of what it wrote (Next/ReadByte) and puts the buffer back as it is
+					b.bb.Next(1 + (w+i)%b.wrote)
+					cls.Add("buffer-put-partly-read")
+				}
 				m.mu.Lock()
 				m.state[b.id] = c19Pooled
 				m.mu.Unlock()
 				p.put(b)
+				if b.bb != nil && (w+i)%4 == 0 {
+					// the two pool packages do not share memory: what was put into this buffer pool must not come out of the
+					// byte-slice DefaultPool (the harness takes from it and never puts back)
+					for _, n := range []int{b.bb.Cap(), 65536} {
+						if g := pbytes.Get(n); g != nil && cap(*g) > 0 {
+							id := uintptr(unsafe.Pointer(unsafe.SliceData((*g)[:cap(*g)])))
+							m.mu.Lock()
+							if st := m.state[id]; st != 0 {
+								m.fail(core.Viol("C19/buffer-memory-in-byte-pool", "worker %d: pbytes.Get(%d) on the byte-slice DefaultPool returned memory (cap %d) that belongs to a buffer of the buffer pool (state %d): one Put, two owners", w, n, cap(*g), st))
+							}
+							m.keep = append(m.keep, &c19Buf{bp: g})
+							m.mu.Unlock()
+						}
+					}
+				}
 			case "putf":
 				b := p.foreign(op.N, op.L)
 				b.id = identityOf(b)
